@@ -179,8 +179,11 @@ class GhashMachine(lenrun.Machine):
         if reads and (vdefs or gdefs) and (a is None or a[0] != "p"):
             # the sets must over-approximate: a value loaded from an address the length skeleton does not determine
             # could carry any monomial, so the run cannot be judged
-            raise lenrun.Stop("`%s` loads from an address the length skeleton does not determine" % i.text.strip())
-        if reads:
+            top = getattr(self, "unknown_load_value", None)
+            if top is None:
+                raise lenrun.Stop("`%s` loads from an address the length skeleton does not determine" % i.text.strip())
+            mem_l = [top] * max(1, (size or 16) // 16)
+        elif reads:
             n = max(1, (size or 16) // 16)
             if (size or 16) < 16 or a is None or a[0] != "p":
                 mem_l = [self.mget(a, size or 8)]
